@@ -30,7 +30,7 @@ def dispatch (toks : List String) (impl : Option String) : Option (String × Str
     else if t.startsWith "num." then Num.handle toks impl
     else if t.startsWith "csv." then Csv.handle toks impl
     else if t.startsWith "fault." then Fault.handle toks impl
-    else if t == "load.any" || t == "rt.any" then Load.handle toks impl
+    else if t == "load.any" || t == "rt.any" || t == "enc.rt" then Load.handle toks impl
     else if t.startsWith "cont." then Cont.handle toks impl
     else if t.startsWith "val." then Valid.handle toks impl
     else if t.startsWith "json." || t.startsWith "xml." then Adapter.handle toks impl
